@@ -106,6 +106,8 @@ def _library_view(run, f):
         return ('ok', MT.MosFile.from_string(f['data']))
     except MX.MosRoMgrException as e:
         return ('invalid', e)
+    except Exception as e:    # noqa - the library itself fails on this document (C08 / C12 judge that): not judged here
+        return ('skip', e)
 
 
 def _inspect_text(obj):
@@ -188,6 +190,8 @@ def _detect(run, step, files, src, add, tag, sig):
     lines = out.split('\n')
     for f, name in zip(seq, names):
         view = _library_view(run, f)
+        if view[0] == 'skip':
+            continue
         if view[0] == 'ok':
             obj = view[1]
             cls = type(obj).__name__
@@ -297,7 +301,10 @@ def _merge(run, step, files, src, add, tag, sig):
         if not ok:
             expect_error = 'invalid collection (%s)' % why
         else:
-            mc = MC.MosCollection.from_strings([f['data'] for f in good], allow_incomplete=incomplete)
+            try:
+                mc = MC.MosCollection.from_strings([f['data'] for f in good], allow_incomplete=incomplete)
+            except Exception:    # noqa - the library cannot build what it should accept (C11 judges that): nothing to compare with
+                return
             with warnings.catch_warnings():
                 warnings.simplefilter('ignore')
                 try:
